@@ -68,8 +68,11 @@ class Path(object):
             out.append(r.term if r.value else tm.not_(r.term))
         return out
 
-    def pc(self, essential=True):
-        return tm.and_(*self.pc_terms(essential))
+    def pc(self, essential=True, fold=True):
+        ts = self.pc_terms(essential)
+        if fold:
+            ts = tm.fold_bounds(ts)
+        return tm.and_(*ts)
 
 
 class Explorer(object):
@@ -305,10 +308,25 @@ class Explorer(object):
 EPS = Fraction(1, 1000000)
 
 
+_const_cache = {}
+
+
 def _lift(x):
     """python/proxy -> (term, pytype) for numbers, or None."""
     if isinstance(x, Sym):
         return x.term, x.pytype
+    tx = type(x)
+    if tx is int or tx is float:
+        r = _const_cache.get((tx, x))
+        if r is None:
+            r = _lift_slow(x)
+            if len(_const_cache) < 200000:
+                _const_cache[(tx, x)] = r
+        return r
+    return _lift_slow(x)
+
+
+def _lift_slow(x):
     if isinstance(x, bool):
         return tm.B(x), bool
     if isinstance(x, int):
@@ -420,16 +438,32 @@ class Sym(object):
 
     # comparison ---------------------------------------------------------
     def __lt__(self, o):
-        return self._num(o, lambda a, at, b, bt: wrap(tm.lt(a, b), bool))
+        l = _lift(o)
+        if l is None:
+            return NotImplemented
+        t = tm.lt(self.term, l[0])
+        return t.val if t.op == 'const' else SymBool(t)
 
     def __le__(self, o):
-        return self._num(o, lambda a, at, b, bt: wrap(tm.le(a, b), bool))
+        l = _lift(o)
+        if l is None:
+            return NotImplemented
+        t = tm.le(self.term, l[0])
+        return t.val if t.op == 'const' else SymBool(t)
 
     def __gt__(self, o):
-        return self._num(o, lambda a, at, b, bt: wrap(tm.lt(b, a), bool))
+        l = _lift(o)
+        if l is None:
+            return NotImplemented
+        t = tm.lt(l[0], self.term)
+        return t.val if t.op == 'const' else SymBool(t)
 
     def __ge__(self, o):
-        return self._num(o, lambda a, at, b, bt: wrap(tm.le(b, a), bool))
+        l = _lift(o)
+        if l is None:
+            return NotImplemented
+        t = tm.le(l[0], self.term)
+        return t.val if t.op == 'const' else SymBool(t)
 
     def __eq__(self, o):
         r = self._num(o, lambda a, at, b, bt: wrap(tm.eq(a, b), bool))
